@@ -66,6 +66,7 @@ class Trace:
         self.saved = []
         self.addr_ids = {}
         self.data_ids = {}
+        self.last_sock = None
 
     def addr_id(self, a):
         return self.addr_ids.setdefault(a, len(self.addr_ids) + 1)
@@ -102,9 +103,9 @@ class Trace:
             def datagram_received(self_, data, addrs):
                 if self_.zc is not zc:
                     return orig(self_, data, addrs)
-                own = tr.begin("rx", data=bytes(data), src=(addrs[0], addrs[1]))
+                own = tr.begin("rx", data=bytes(data), src=(addrs[0], addrs[1]), lis=self_, v6=len(addrs) == 4)
                 if own:
-                    tr.cur["pq"] = parse_query(zc, tr.uni, bytes(data), tr.sim.loop.ms)
+                    tr.cur["pq"] = parse_query(zc, tr.uni, bytes(data), tr.sim.loop.ms, addrs[3] if len(addrs) == 4 else None)
                 try:
                     return orig(self_, data, addrs)
                 finally:
@@ -116,7 +117,7 @@ class Trace:
             def _respond_query(self_, msg, addr, port, transport, v6):
                 if self_.zc is not zc:
                     return orig(self_, msg, addr, port, transport, v6)
-                own = tr.begin("tc", addr=addr)
+                own = tr.begin("tc", addr=addr, lis=self_)
                 try:
                     return orig(self_, msg, addr, port, transport, v6)
                 finally:
@@ -157,13 +158,21 @@ class Trace:
         def on_send(t, src, data, addr):
             if src is not tr.host:
                 return
-            rec = dict(t=t + T0, to=(addr[0], addr[1]), data=bytes(data))
+            rec = dict(t=t + T0, to=(addr[0], addr[1]), data=bytes(data), sock=tr.last_sock)
             if tr.cur is None:
                 tr.orphans.append(rec)
             else:
                 tr.cur["outs"].append(rec)
 
         self.sim.net.on_send = on_send
+
+        def mk_sendto(orig):
+            def sendto(self_, data, addr=None):
+                tr.last_sock = self_.sock
+                return orig(self_, data, addr)
+            return sendto
+
+        patch(vsim.FakeTransport, "sendto", mk_sendto)
 
     def uninstall(self):
         for cls, name, orig in reversed(self.saved):
@@ -176,14 +185,14 @@ class Trace:
 # serialisation for the model
 
 
-def parse_query(zc, uni, data, now):
+def parse_query(zc, uni, data, now, scope=None):
     """what the responder will see in a datagram, computed outside the listener:
     (valid, is_query, has_qu, pkt-or-None).  Candidate answers come from the real
     `_get_answer_strategies`/`_answer_question` with an empty known-answer set (C03's subject)."""
     from zeroconf._dns import DNSRRSet
     from zeroconf._protocol.incoming import DNSIncoming
 
-    m = DNSIncoming(data, ("0.0.0.0", 5353), None, float(now))
+    m = DNSIncoming(data, ("0.0.0.0", 5353), scope, float(now))  # the listener passes the receiving interface's scope
     if not m.valid:
         return False, False, m.has_qu_question(), None
     if not m.is_query():
@@ -253,15 +262,19 @@ def decode_out(tr, o):
     o["msg"] = m
     o["ans"] = [tr.uni.id(r) for r in ans]
     o["add"] = [tr.uni.id(r) for r in add]
-    if o["to"][0] == MDNS:
+    if o["to"][0] in (MDNS, "ff02::fb"):
         o["mcast"] = True
         return "m:%s:%s" % (a, x)
     o["mcast"] = False
     return "u:%d:%d:%d:%s:%s:%s" % (tr.addr_id(o["to"][0]), o["to"][1], m.id, C.b01(len(m._questions) > 0), a, x)
 
 
-def block_obs(tr, b):
-    outs = sorted(decode_out(tr, o) for o in b["outs"])
+def block_obs(tr, b, dedupe_mcast=False):
+    outs = [decode_out(tr, o) for o in b["outs"]]
+    if dedupe_mcast:
+        # one logical multicast is one datagram per socket: identical descriptors count once
+        outs = [x for i, x in enumerate(outs) if not (x.startswith("m:") and x in outs[:i])]
+    outs = sorted(outs)
     draws = ",".join("%d/%d/%d" % d for d in b["draws"])
     return "%s %s" % (",".join(outs) if outs else "-", draws or "-")
 
